@@ -204,7 +204,8 @@ fn line_stmt(r: &mut Rng, depth: usize, in_loop: bool) -> String {
         1 => "g(1)".to_string(),
         2 => "local v = 1".to_string(),
         3 | 4 => {
-            let mut s = format!("if c then{}{}", gap(r), line_block(r, depth + 1, in_loop, true));
+            let cond = *r.pick(&["c", "c", "c", "c\n  or d", "(c\n)", "c and\nd"]);
+            let mut s = format!("if {} then{}{}", cond, gap(r), line_block(r, depth + 1, in_loop, true));
             if r.chance(1, 4) {
                 s.push_str(&format!("{}else{}{}", gap(r), gap(r), line_block(r, depth + 1, in_loop, true)));
             }
